@@ -346,7 +346,7 @@ pub fn gen_case<R: Rng>(rng: &mut R, real: bool) -> Case {
     let kt = mc::rand_kt(rng);
     if real {
         let mut cfg = mc::rand_cfg(rng, kt, 5000);
-        cfg.inner_steps = (cfg.steps / rng.gen_range(3, 40)).max(1);
+        cfg.inner_steps = if rng.gen_range(0, 4) == 0 { rng.gen_range(1, 4) } else { (cfg.steps / rng.gen_range(3, 40)).max(1) };
         cfg.max_step_size = 10f64.powf(rng.gen_range(-3., -0.3));
         cfg.convergence = None;
         let lj = rng.gen_bool(0.4);
@@ -355,8 +355,9 @@ pub fn gen_case<R: Rng>(rng: &mut R, real: bool) -> Case {
     } else {
         let mut sc = mc::rand_scripted_case(rng, kt, 20_000);
         // many loops, so that the adaptation of the step acts many times
-        let loops = [1, 2, 3, 5, 10, 50][rng.gen_range(0, 6)];
-        sc.cfg.inner_steps = (sc.cfg.steps / loops).max(1);
+        let loops = [1, 2, 3, 5, 10, 50, 0, 0][rng.gen_range(0, 8)];
+        // (0: loops of 1-4 proposals, hundreds of adaptations per run)
+        sc.cfg.inner_steps = if loops == 0 { rng.gen_range(1, 5) } else { (sc.cfg.steps / loops).max(1) };
         // (down to 1e-8: limits below any internal floor of the adaptation count as well)
         sc.cfg.max_step_size = 10f64.powf(rng.gen_range(-8., 0.));
         if rng.gen_bool(0.7) {
@@ -367,7 +368,7 @@ pub fn gen_case<R: Rng>(rng: &mut R, real: bool) -> Case {
 }
 
 pub fn run(ctx: &Ctx) {
-    ctx.set_rule("every proposal of optimise_state is measured against every possible current state (trace monitor): its single changed parameter may move by at most max_step_size x half the parameter's range (ranges: the chosen bounds of scripted states; for real hard/LJ states the ranges declared by the property at stage start). Rejection histories are forced by scripts (0/50/75/99/100% rejection per loop, reject runs, alternation, undefined scores), 1..50 inner loops (the step adaptation acts between loops), steps 1e-8..1, k = 1..24 parameters, all temperatures. Plus freeze-and-release runs on a lean state (no trace monitor, moves measured against the last accepted vector): every loop rejected for as many loops as it takes a step that shrinks by inner/(inner+1) per rejected loop to fall by 2-8 decades, then accepting loops, then both again - loops of 1..300 proposals, and loops of more than 10^4 proposals (about 1e9 proposals per run); the same with a convergence threshold set and the run kept just short of it (1-5 stalled loops, then one improvement, again and again). Non-trivial = runs with >= 3 inner loops; distinct by case");
+    ctx.set_rule("every proposal of optimise_state is measured against every possible current state (trace monitor): its single changed parameter may move by at most max_step_size x half the parameter's range (ranges: the chosen bounds of scripted states; for real hard/LJ states the ranges declared by the property at stage start). Rejection histories are forced by scripts (0/50/75/99/100% rejection per loop, reject runs, alternation, undefined scores), 1..50 inner loops and loops of 1-4 proposals (the step adaptation acts between loops), steps 1e-8..1, k = 1..24 parameters, all temperatures. Plus freeze-and-release runs on a lean state (no trace monitor, moves measured against the last accepted vector): every loop rejected for as many loops as it takes a step that shrinks by inner/(inner+1) per rejected loop to fall by 2-8 decades, then accepting loops, then both again - loops of 1..300 proposals, and loops of more than 10^4 proposals (about 1e9 proposals per run); the same with a convergence threshold set and the run kept just short of it (1-5 stalled loops, then one improvement, again and again). Non-trivial = runs with >= 3 inner loops; distinct by case");
     let n_s = ctx.tier.pick(70u64, 3_500u64);
     let n_r = ctx.tier.pick(6u64, 250u64);
     let prev = std::panic::take_hook();
